@@ -5,128 +5,48 @@ Property theorems over the abstract machine `Octave.Model.Effects`, whose only k
 regenerated effect summary `Gen.summary`.
 
   generic (any summary, any code `impl`, any history length, any schedule):
-    C06_history_independent   Frame ∧ NoEnvPartial ∧ Ordered → masked response after any history in any
-                              configuration = masked response of a fresh process in any other configuration
-                              that resolves the schema name to the same text (calls outside the C06N1 class)
+    C06_history_independent   Frame ∧ NoEnv ∧ Ordered → masked response after any history in any configuration
+                              = masked response of a fresh process in any other configuration that resolves the
+                              schema name to the same text
     C06_lookup_order          PkgFirst → a schema shipped in the first (package) directory resolves to the same
                               text in every working directory
     C06_serialisable          NoAwait → every schedule of concurrently submitted calls equals the serial
                               execution of whole calls in the order the loop first picked them
     C06_concurrent_same       all four → every response produced under any schedule = fresh response
   instance facts about the code as it is now (`decide` over the generated summary):
-    C06_frame, C06_noenv_partial, C06_ordered, C06_noawait, C06_pkg_first
-  and their combination  C06_code_partial / C06_code_concurrent_partial.
+    C06_frame, C06_noenv, C06_ordered, C06_noawait, C06_pkg_first, C06_search_order, C06_timestamp_keys
+  and their combination  C06_code / C06_code_concurrent / C06_code_lookup.
 
-`_partial`: the generated summary contains one environment read that is not allowed — known finding C06N1
-(default object repr of `ConstraintChain`, a memory address, reaches routing `value_hash` and the markdown
-projection).  The theorems hold for calls outside that class (`kf c = false`); `C06_N1_channel` shows that
-inside the class the machine does produce different responses.
+History: until /repo commit 0b0d621 the summary contained one read that is not allowed (finding C06N1: the default
+object repr of `ConstraintChain`, a memory address, reached routing `value_hash` and the markdown projection) and
+the instance theorems were `_partial`.  The fix gave the class a `__repr__`; the exemption is gone, the theorems
+are stated at full strength.  `C06_identity_channel` keeps the regression in the model: a summary with such a read
+does produce different responses in two configurations.
 -/
 import Octave.Model.Effects
+import Octave.Lemmas.Effects
 import Octave.Gen.Effects
 namespace Octave.C06
-open Octave
+open Octave Octave.Effects
 
 section Generic
 variable {Args Text Data : Type}
 
-theorem mask_fill (clock : Nat) (sk : List (Option Data)) : mask (fill clock sk) = sk := by
-  induction sk with
-  | nil => rfl
-  | cons x xs ih =>
-    cases x with
-    | none => simp only [fill, mask, List.map_cons, List.map_map] at *; simp [ih]
-    | some d => simp only [fill, mask, List.map_cons, List.map_map] at *; simp [ih]
-
-theorem applyWrites_frame {S : Summary} (hF : Frame S) (old new : PState) : applyWrites S old new = old := by
-  funext b
-  unfold Frame at hF
-  simp [applyWrites, hF]
-
-theorem step_state_frame {S : Summary} (hF : Frame S) (kf : Call Args → Bool) (impl : Impl Args Text Data)
-    (cfg : Config Text) (st : PState) (c : Call Args) : (step S kf impl cfg st c).1 = st := by
-  simp [step, applyWrites_frame hF]
-
-/-- Invariant, by induction over the history: under `Frame` the module/class state after any history is the
-state the process had after import. -/
-theorem run_state_frame {S : Summary} (hF : Frame S) (kf : Call Args → Bool) (impl : Impl Args Text Data)
-    (cfg : Config Text) (st : PState) (hist : List (Call Args)) : (run S kf impl cfg st hist).1 = st := by
-  induction hist generalizing st with
-  | nil => rfl
-  | cons c cs ih =>
-    simp only [run]
-    rw [ih, step_state_frame hF]
-
-theorem run_append (S : Summary) (kf : Call Args → Bool) (impl : Impl Args Text Data) (cfg : Config Text)
-    (st : PState) (hist : List (Call Args)) (c : Call Args) :
-    (run S kf impl cfg st (hist ++ [c])).2
-      = (run S kf impl cfg st hist).2 ++ [(step S kf impl cfg (run S kf impl cfg st hist).1 c).2] := by
-  induction hist generalizing st with
-  | nil => simp [run]
-  | cons d ds ih => simp only [List.cons_append, run, ih, List.cons_append]
-
-theorem lastResp_append (S : Summary) (kf : Call Args → Bool) (impl : Impl Args Text Data) (cfg : Config Text)
-    (st : PState) (hist : List (Call Args)) (c : Call Args) :
-    lastResp (run S kf impl cfg st (hist ++ [c])) = some (step S kf impl cfg (run S kf impl cfg st hist).1 c).2 := by
-  simp [lastResp, run_append]
-
-theorem leak_nil {S : Summary} (hE : NoEnvPartial S) (hO : Ordered S) (kf : Call Args → Bool)
-    (cfg : Config Text) (c : Call Args) (hc : kf c = false) : leakOf S kf cfg c = [] := by
-  unfold Ordered at hO
-  have hfil : S.envReads.filter (fun r => !allowedEnv r && (!knownFindingEnv r || kf c)) = [] := by
-    rw [List.filter_eq_nil_iff]
-    intro r hr
-    rcases hE r hr with h | h <;> simp [h, hc]
-  simp [leakOf, hO, hfil]
-
-/-- Under the three disciplines a call outside the known-finding class observes nothing but its arguments,
-the resolved schema text and the (constant) post-import state. -/
-theorem observe_eq {S : Summary} (hE : NoEnvPartial S) (hO : Ordered S) (kf : Call Args → Bool)
-    (cfg cfg' : Config Text) (st : PState) (c : Call Args) (hc : kf c = false)
-    (hs : sameSchemaText S cfg cfg' c) : observe S kf cfg st c = observe S kf cfg' st c := by
-  unfold sameSchemaText at hs
-  simp [observe, leak_nil hE hO kf cfg c hc, leak_nil hE hO kf cfg' c hc, hs]
-
 /-- **History independence + configuration independence** (the generic lifting theorem, any history length):
 the masked response to `call` after serving an arbitrary history in configuration `cfg` equals the masked
 response of a fresh process in configuration `cfg'`, provided both resolve the schema name to the same text. -/
-theorem C06_history_independent {S : Summary} (hF : Frame S) (hE : NoEnvPartial S) (hO : Ordered S)
-    (kf : Call Args → Bool) (impl : Impl Args Text Data) (init : PState)
-    (cfg cfg' : Config Text) (hist : List (Call Args)) (call : Call Args)
-    (hc : kf call = false) (hs : sameSchemaText S cfg cfg' call) :
-    (lastResp (run S kf impl cfg init (hist ++ [call]))).map mask
-      = (lastResp (run S kf impl cfg' init [call])).map mask := by
-  have h1 := lastResp_append S kf impl cfg init hist call
-  have h2 := lastResp_append S kf impl cfg' init [] call
-  simp only [List.nil_append] at h2
-  rw [h1, h2, run_state_frame hF]
-  simp only [run, Option.map_some, step, mask_fill]
-  rw [observe_eq hE hO kf cfg cfg' init call hc hs]
-
-/-- Full-strength form for a summary without any disallowed read (no known-finding exemption needed). -/
-theorem C06_history_independent_full {S : Summary} (hF : Frame S) (hE : NoEnv S) (hO : Ordered S)
+theorem C06_history_independent {S : Summary} (hF : Frame S) (hE : NoEnv S) (hO : Ordered S)
     (impl : Impl Args Text Data) (init : PState)
     (cfg cfg' : Config Text) (hist : List (Call Args)) (call : Call Args)
     (hs : sameSchemaText S cfg cfg' call) :
-    (lastResp (run S (fun _ => true) impl cfg init (hist ++ [call]))).map mask
-      = (lastResp (run S (fun _ => true) impl cfg' init [call])).map mask := by
-  have hfil : ∀ (cfg : Config Text), leakOf S (fun _ => true) cfg call = [] := by
-    intro cfg
-    unfold Ordered at hO
-    have hnil : S.envReads.filter (fun r => !allowedEnv r && (!knownFindingEnv r || (fun _ => true) call)) = [] := by
-      rw [List.filter_eq_nil_iff]
-      intro r hr
-      have := hE r hr
-      simp [this]
-    unfold leakOf
-    rw [hnil, hO]
-    rfl
-  have h1 := lastResp_append S (fun _ => true) impl cfg init hist call
-  have h2 := lastResp_append S (fun _ => true) impl cfg' init [] call
+    (lastResp (run S impl cfg init (hist ++ [call]))).map mask
+      = (lastResp (run S impl cfg' init [call])).map mask := by
+  have h1 := lastResp_append S impl cfg init hist call
+  have h2 := lastResp_append S impl cfg' init [] call
   simp only [List.nil_append] at h2
-  unfold sameSchemaText at hs
   rw [h1, h2, run_state_frame hF]
-  simp only [run, Option.map_some, step, mask_fill, observe, hfil, hs]
+  simp only [run, Option.map_some, step, mask_fill]
+  rw [observe_eq hE hO cfg cfg' init call hs]
 
 /-- **Lookup order**: when the first search directory is a package directory and contains the schema, the
 name resolves to that text whatever the working directory holds. -/
@@ -147,139 +67,38 @@ theorem C06_lookup_order {S : Summary} (hP : PkgFirst S) (cfg cfg' : Config Text
       have hd' : cfg'.dirs 0 name = some t := by rw [← h0]; exact hd
       simp [resolve, hso, resolveFrom, hd, hd']
 
-/-! ### Concurrency -/
-
-theorem tick_eq_serialTick {S : Summary} (hA : NoAwait S) (kf : Call Args → Bool) (impl : Impl Args Text Data)
-    (cfg : Config Text) (calls : List (Call Args)) (L : Loop Args Text Data) (i : Nat)
-    (hL : ∀ (j : Nat) (o : Obs Args Text), L.phases[j]? ≠ some (Phase.observed o)) :
-    tick S kf impl cfg calls L i = serialTick S kf impl cfg calls L i := by
-  unfold NoAwait at hA
-  unfold tick serialTick
-  cases hc : calls[i]? with
-  | none => rfl
-  | some c =>
-    cases hp : L.phases[i]? with
-    | none => rfl
-    | some p =>
-      cases p with
-      | fresh => simp [hA, step]
-      | observed o => exact absurd hp (hL i o)
-      | done r => rfl
-
-theorem serialTick_no_observed (S : Summary) (kf : Call Args → Bool) (impl : Impl Args Text Data)
-    (cfg : Config Text) (calls : List (Call Args)) (L : Loop Args Text Data) (i : Nat)
-    (hL : ∀ (j : Nat) (o : Obs Args Text), L.phases[j]? ≠ some (Phase.observed o)) :
-    ∀ (j : Nat) (o : Obs Args Text), (serialTick S kf impl cfg calls L i).phases[j]? ≠ some (Phase.observed o) := by
-  intro j o
-  unfold serialTick
-  cases hc : calls[i]? with
-  | none => exact hL j o
-  | some c =>
-    cases hp : L.phases[i]? with
-    | none => exact hL j o
-    | some p =>
-      cases p with
-      | fresh =>
-        by_cases hij : i = j
-        · subst hij
-          intro h
-          simp [List.getElem?_set] at h
-        · rw [List.getElem?_set_ne hij]; exact hL j o
-      | observed o' => exact hL j o
-      | done r => exact hL j o
-
-theorem foldl_tick_eq {S : Summary} (hA : NoAwait S) (kf : Call Args → Bool) (impl : Impl Args Text Data)
-    (cfg : Config Text) (calls : List (Call Args)) (sched : List Nat) (L : Loop Args Text Data)
-    (hL : ∀ (j : Nat) (o : Obs Args Text), L.phases[j]? ≠ some (Phase.observed o)) :
-    sched.foldl (tick S kf impl cfg calls) L = sched.foldl (serialTick S kf impl cfg calls) L := by
-  induction sched generalizing L with
-  | nil => rfl
-  | cons i is ih =>
-    simp only [List.foldl_cons]
-    rw [tick_eq_serialTick hA kf impl cfg calls L i hL]
-    exact ih _ (serialTick_no_observed S kf impl cfg calls L i hL)
-
-theorem initLoop_no_observed (init : PState) (calls : List (Call Args)) :
-    ∀ (j : Nat) (o : Obs Args Text), (initLoop (Text := Text) (Data := Data) init calls).phases[j]? ≠ some (Phase.observed o) := by
-  intro j o h
-  simp only [initLoop, List.getElem?_map] at h
-  cases hc : calls[j]? <;> simp [hc] at h
-
 /-- **Serialisability**: without an await inside tool code, every schedule the event loop can choose — any
 list of task indices, of any length, with repetitions — has exactly the effect of serving whole calls one
 after the other in the order in which the loop first picked them. -/
-theorem C06_serialisable {S : Summary} (hA : NoAwait S) (kf : Call Args → Bool) (impl : Impl Args Text Data)
+theorem C06_serialisable {S : Summary} (hA : NoAwait S) (impl : Impl Args Text Data)
     (cfg : Config Text) (init : PState) (calls : List (Call Args)) (sched : List Nat) :
-    runSched S kf impl cfg init calls sched = runSerial S kf impl cfg init calls sched := by
+    runSched S impl cfg init calls sched = runSerial S impl cfg init calls sched := by
   unfold runSched runSerial
-  exact foldl_tick_eq hA kf impl cfg calls sched _ (initLoop_no_observed init calls)
-
-/-- Invariant of a serial run under `Frame`: the state stays `init` and every finished task holds the
-response a fresh step from `init` gives. -/
-theorem serial_invariant {S : Summary} (hF : Frame S) (kf : Call Args → Bool) (impl : Impl Args Text Data)
-    (cfg : Config Text) (init : PState) (calls : List (Call Args)) (order : List Nat) (L : Loop Args Text Data)
-    (hst : L.st = init)
-    (hdone : ∀ (j : Nat) (r : List (Slot Data)), L.phases[j]? = some (Phase.done r) → ∃ c, calls[j]? = some c ∧ r = (step S kf impl cfg init c).2) :
-    let L' := order.foldl (serialTick S kf impl cfg calls) L
-    L'.st = init ∧ ∀ (j : Nat) (r : List (Slot Data)), L'.phases[j]? = some (Phase.done r) → ∃ c, calls[j]? = some c ∧ r = (step S kf impl cfg init c).2 := by
-  induction order generalizing L with
-  | nil => exact ⟨hst, hdone⟩
-  | cons i is ih =>
-    simp only [List.foldl_cons]
-    apply ih
-    · unfold serialTick
-      cases hc : calls[i]? with
-      | none => exact hst
-      | some c =>
-        cases hp : L.phases[i]? with
-        | none => exact hst
-        | some p =>
-          cases p with
-          | fresh => show (step S kf impl cfg L.st c).1 = init; rw [step_state_frame hF]; exact hst
-          | observed o => exact hst
-          | done r => exact hst
-    · intro j r
-      unfold serialTick
-      cases hc : calls[i]? with
-      | none => exact hdone j r
-      | some c =>
-        cases hp : L.phases[i]? with
-        | none => exact hdone j r
-        | some p =>
-          cases p with
-          | fresh =>
-            by_cases hij : i = j
-            · subst hij
-              intro h
-              simp [List.getElem?_set] at h
-              exact ⟨c, hc, by rw [← h.2, hst]⟩
-            · rw [List.getElem?_set_ne hij]; exact hdone j r
-          | observed o => exact hdone j r
-          | done r' => exact hdone j r
+  exact foldl_tick_eq hA impl cfg calls sched _ (initLoop_no_observed init calls)
 
 /-- **Concurrent = fresh**: with all four disciplines, whatever the schedule, every response a task produces
 is (after masking) the response a fresh process in any other configuration gives to that call alone. -/
-theorem C06_concurrent_same {S : Summary} (hF : Frame S) (hE : NoEnvPartial S) (hO : Ordered S) (hA : NoAwait S)
-    (kf : Call Args → Bool) (impl : Impl Args Text Data) (init : PState) (cfg cfg' : Config Text)
+theorem C06_concurrent_same {S : Summary} (hF : Frame S) (hE : NoEnv S) (hO : Ordered S) (hA : NoAwait S)
+    (impl : Impl Args Text Data) (init : PState) (cfg cfg' : Config Text)
     (calls : List (Call Args)) (sched : List Nat) (j : Nat) (r : List (Slot Data))
-    (hr : (runSched S kf impl cfg init calls sched).phases[j]? = some (Phase.done r)) :
+    (hr : (runSched S impl cfg init calls sched).phases[j]? = some (Phase.done r)) :
     ∃ c, calls[j]? = some c ∧
-      (kf c = false → sameSchemaText S cfg cfg' c →
-        some (mask r) = (lastResp (run S kf impl cfg' init [c])).map mask) := by
+      (sameSchemaText S cfg cfg' c →
+        some (mask r) = (lastResp (run S impl cfg' init [c])).map mask) := by
   rw [C06_serialisable hA] at hr
   unfold runSerial at hr
-  have inv := serial_invariant hF kf impl cfg init calls sched (initLoop init calls) rfl (by
+  have inv := serial_invariant hF impl cfg init calls sched (initLoop init calls) rfl (by
     intro j r h
     simp only [initLoop, List.getElem?_map] at h
     cases hc : calls[j]? <;> simp [hc] at h)
   obtain ⟨c, hc, hrc⟩ := inv.2 j r hr
   refine ⟨c, hc, ?_⟩
-  intro hkf hs
-  have h2 := lastResp_append S kf impl cfg' init [] c
+  intro hs
+  have h2 := lastResp_append S impl cfg' init [] c
   simp only [List.nil_append] at h2
   rw [h2, hrc]
   simp only [run, Option.map_some, step, mask_fill]
-  rw [observe_eq hE hO kf cfg cfg' init c hkf hs]
+  rw [observe_eq hE hO cfg cfg' init c hs]
 
 end Generic
 
@@ -287,8 +106,9 @@ end Generic
 
 /-- No reachable non-import-time function writes module/class state (benign list: `benignWrite`, `benignEscape`). -/
 theorem C06_frame : Frame Gen.summary := by decide
-/-- Environment reads ⊆ allowed list ∪ {C06N1 site}. -/
-theorem C06_noenv_partial : NoEnvPartial Gen.summary := by decide
+/-- Every environment read is on the allowed list (cwd for the schema search, home for the frozen cache, now() for
+timestamps, … — `allowedEnv`, each entry justified). -/
+theorem C06_noenv : NoEnv Gen.summary := by decide
 /-- No unordered set iteration reaches an output. -/
 theorem C06_ordered : Ordered Gen.summary := by decide
 /-- No await / async with / async for / asyncio / threading in tool code. -/
@@ -299,30 +119,25 @@ theorem C06_pkg_first : PkgFirst Gen.summary := by decide
 theorem C06_search_order : Gen.summary.searchOrder = ["package", "cwd", "cwd", "package"] := by decide
 /-- The only serialised field that receives a clock reading is `RoutingLog.to_dict`'s `timestamp`. -/
 theorem C06_timestamp_keys : Gen.timestampKeys = [("core/routing.py", "RoutingLog.to_dict", "timestamp")] := by decide
-/-- The known-finding exemption covers at most one site (today exactly one; once C06N1 is fixed the list is
-empty, `NoEnv Gen.summary` becomes provable by `decide` and the `_partial` instance theorems below can be replaced
-by their full forms through `C06_history_independent_full`). -/
-theorem C06_N1_at_most_one : (Gen.summary.envReads.filter knownFindingEnv).length ≤ 1 := by decide
-
-/-- **C06 for the code as it is** (partial: calls outside the C06N1 class): any code whose effects are within
-the regenerated summary answers `call` identically (timestamps masked) after any history in any
-configuration and in a fresh process in any other configuration resolving the schema to the same text. -/
-theorem C06_code_partial {Args Text Data : Type} (kf : Call Args → Bool) (impl : Impl Args Text Data) (init : PState)
+/-- **C06 for the code as it is**: any code whose effects are within the regenerated summary answers `call`
+identically (timestamps masked) after any history in any configuration and in a fresh process in any other
+configuration resolving the schema to the same text. -/
+theorem C06_code {Args Text Data : Type} (impl : Impl Args Text Data) (init : PState)
     (cfg cfg' : Config Text) (hist : List (Call Args)) (call : Call Args)
-    (hc : kf call = false) (hs : sameSchemaText Gen.summary cfg cfg' call) :
-    (lastResp (run Gen.summary kf impl cfg init (hist ++ [call]))).map mask
-      = (lastResp (run Gen.summary kf impl cfg' init [call])).map mask :=
-  C06_history_independent C06_frame C06_noenv_partial C06_ordered kf impl init cfg cfg' hist call hc hs
+    (hs : sameSchemaText Gen.summary cfg cfg' call) :
+    (lastResp (run Gen.summary impl cfg init (hist ++ [call]))).map mask
+      = (lastResp (run Gen.summary impl cfg' init [call])).map mask :=
+  C06_history_independent C06_frame C06_noenv C06_ordered impl init cfg cfg' hist call hs
 
 /-- …and under every schedule of concurrently submitted calls in one event loop. -/
-theorem C06_code_concurrent_partial {Args Text Data : Type} (kf : Call Args → Bool) (impl : Impl Args Text Data)
+theorem C06_code_concurrent {Args Text Data : Type} (impl : Impl Args Text Data)
     (init : PState) (cfg cfg' : Config Text) (calls : List (Call Args)) (sched : List Nat) (j : Nat)
     (r : List (Slot Data))
-    (hr : (runSched Gen.summary kf impl cfg init calls sched).phases[j]? = some (Phase.done r)) :
+    (hr : (runSched Gen.summary impl cfg init calls sched).phases[j]? = some (Phase.done r)) :
     ∃ c, calls[j]? = some c ∧
-      (kf c = false → sameSchemaText Gen.summary cfg cfg' c →
-        some (mask r) = (lastResp (run Gen.summary kf impl cfg' init [c])).map mask) :=
-  C06_concurrent_same C06_frame C06_noenv_partial C06_ordered C06_noawait kf impl init cfg cfg' calls sched j r hr
+      (sameSchemaText Gen.summary cfg cfg' c →
+        some (mask r) = (lastResp (run Gen.summary impl cfg' init [c])).map mask) :=
+  C06_concurrent_same C06_frame C06_noenv C06_ordered C06_noawait impl init cfg cfg' calls sched j r hr
 
 /-- A packaged schema (first search directory) resolves identically in every working directory. -/
 theorem C06_code_lookup {Args Text : Type} (cfg cfg' : Config Text) (hI : sameInstall Gen.summary cfg cfg')
@@ -341,32 +156,31 @@ def init : PState := fun _ => 0
 def cfgA : Config Nat := { env := fun _ => 7, clock := 100, dirs := fun i n => if i == 0 && n == "S" then some 1 else none }
 def cfgB : Config Nat := { env := fun _ => 9, clock := 200, dirs := fun i n => if i == 0 && n == "S" then some 1 else if i == 1 then some 5 else none }
 def call (a : Nat) : Call Nat := { args := a, schema := some "S" }
-def noKf : Call Nat → Bool := fun _ => false
 def clean : Summary := { writes := [], escapes := [], setIters := [], envReads := [], asyncs := [], searchOrder := ["package", "cwd"] }
 def leakyWrite : Summary := { clean with writes := [⟨"m.py", "f", "counter", ".append()", "none", false, false, "tools", 1⟩] }
 def leakyEnv : Summary := { clean with envReads := [⟨"m.py", "f", "environ", "os.environ", "tools", 1⟩] }
 def leakySet : Summary := { clean with setIters := [⟨"m.py", "f", "for-loop over set", "s", "tools", 1⟩] }
 def withAwait : Summary := { leakyWrite with asyncs := [⟨"m.py", "execute", "await asyncio.sleep(0)", "tools", 1⟩] }
-def n1 : Summary := { clean with envReads := [⟨"core/constraints.py", "<class ConstraintChain>", "identity", "default repr", "tools", 1⟩] }
+def identityLeak : Summary := { clean with envReads := [⟨"core/constraints.py", "<class ConstraintChain>", "identity", "default object repr", "tools", 1⟩] }
 end Toy
 open Toy
 
 -- the hypotheses of the generic theorems are satisfiable, and the conclusion is about a non-trivial response
-example : Frame clean ∧ NoEnv clean ∧ NoEnvPartial clean ∧ Ordered clean ∧ NoAwait clean ∧ PkgFirst clean := by decide
+example : Frame clean ∧ NoEnv clean ∧ Ordered clean ∧ NoAwait clean ∧ PkgFirst clean := by decide
 example : sameSchemaText clean cfgA cfgB (call 3) := by decide
-example : (lastResp (run clean noKf impl cfgA init ([call 1, call 2] ++ [call 3]))).map mask
+example : (lastResp (run clean impl cfgA init ([call 1, call 2] ++ [call 3]))).map mask
     = some [some 3, some 1, some 0, some 0, none] := by decide
-example : (lastResp (run clean noKf impl cfgA init [call 1, call 2, call 3]))
-    ≠ (lastResp (run clean noKf impl cfgB init [call 3])) := by decide   -- unmasked timestamps differ
+example : (lastResp (run clean impl cfgA init [call 1, call 2, call 3]))
+    ≠ (lastResp (run clean impl cfgB init [call 3])) := by decide   -- unmasked timestamps differ
 -- each hypothesis is needed: open one channel and the machine exhibits the dependence
-example : (lastResp (run leakyWrite noKf impl cfgA init ([call 1, call 2] ++ [call 3]))).map mask
-    ≠ (lastResp (run leakyWrite noKf impl cfgA init [call 3])).map mask := by decide      -- ¬Frame: history
+example : (lastResp (run leakyWrite impl cfgA init ([call 1, call 2] ++ [call 3]))).map mask
+    ≠ (lastResp (run leakyWrite impl cfgA init [call 3])).map mask := by decide      -- ¬Frame: history
 example : ¬ Frame leakyWrite := by decide
-example : (lastResp (run leakyEnv noKf impl cfgA init [call 3])).map mask
-    ≠ (lastResp (run leakyEnv noKf impl cfgB init [call 3])).map mask := by decide        -- ¬NoEnv: configuration
-example : ¬ NoEnvPartial leakyEnv := by decide
-example : (lastResp (run leakySet noKf impl cfgA init [call 3])).map mask
-    ≠ (lastResp (run leakySet noKf impl cfgB init [call 3])).map mask := by decide        -- ¬Ordered: hash seed
+example : (lastResp (run leakyEnv impl cfgA init [call 3])).map mask
+    ≠ (lastResp (run leakyEnv impl cfgB init [call 3])).map mask := by decide        -- ¬NoEnv: configuration
+example : ¬ NoEnv leakyEnv := by decide
+example : (lastResp (run leakySet impl cfgA init [call 3])).map mask
+    ≠ (lastResp (run leakySet impl cfgB init [call 3])).map mask := by decide        -- ¬Ordered: hash seed
 example : ¬ Ordered leakySet := by decide
 -- a name found only in a cwd directory is outside the statement: the hypothesis fails, as it should
 example : ¬ sameSchemaText clean cfgA cfgB ({ args := 0, schema := some "ONLY_IN_CWD" } : Call Nat) := by decide
@@ -375,24 +189,22 @@ example : ¬ sameSchemaText { clean with searchOrder := ["cwd", "package"] }
     { cfgA with dirs := fun i n => if i == 1 && n == "S" then some 1 else none }
     { cfgB with dirs := fun i n => if i == 1 && n == "S" then some 1 else if i == 0 then some 5 else none } (call 3) := by decide
 -- serialisability is about something: without awaits an interleaved schedule equals the serial one …
-example : responses (runSched leakyWrite noKf impl cfgA init [call 1, call 2] [1, 0, 1, 0])
-    = responses (runSerial leakyWrite noKf impl cfgA init [call 1, call 2] [1, 0]) := by decide
+example : responses (runSched leakyWrite impl cfgA init [call 1, call 2] [1, 0, 1, 0])
+    = responses (runSerial leakyWrite impl cfgA init [call 1, call 2] [1, 0]) := by decide
 -- … and with an await between observing and committing, a schedule exists whose responses no serial order gives
 -- (both tasks observe counter = 0: lost update)
-example : responses (runSched withAwait noKf impl cfgA init [call 1, call 2] [0, 1, 0, 1])
-    ≠ responses (runSerial withAwait noKf impl cfgA init [call 1, call 2] [0, 1])
-  ∧ responses (runSched withAwait noKf impl cfgA init [call 1, call 2] [0, 1, 0, 1])
-    ≠ responses (runSerial withAwait noKf impl cfgA init [call 1, call 2] [1, 0]) := by decide
+example : responses (runSched withAwait impl cfgA init [call 1, call 2] [0, 1, 0, 1])
+    ≠ responses (runSerial withAwait impl cfgA init [call 1, call 2] [0, 1])
+  ∧ responses (runSched withAwait impl cfgA init [call 1, call 2] [0, 1, 0, 1])
+    ≠ responses (runSerial withAwait impl cfgA init [call 1, call 2] [1, 0]) := by decide
 example : ¬ NoAwait withAwait := by decide
 
-/-- **C06N1 in the model**: with the identity read of `ConstraintChain` in the summary, a call inside the
-finding's class gets different masked responses in two configurations (the negation of the property on the
-witness), while a call outside the class does not. -/
-theorem C06_N1_channel :
-    (lastResp (run n1 (fun c => c.args == 36) impl cfgA init [call 36])).map mask
-      ≠ (lastResp (run n1 (fun c => c.args == 36) impl cfgB init [call 36])).map mask
-    ∧ (lastResp (run n1 (fun c => c.args == 36) impl cfgA init [call 3])).map mask
-      = (lastResp (run n1 (fun c => c.args == 36) impl cfgB init [call 3])).map mask := by decide
-example : NoEnvPartial n1 ∧ ¬ NoEnv n1 := by decide
+/-- **Regression of finding C06N1 in the model** (fixed in /repo by commit 0b0d621): a summary that lists the
+default object repr of a class held in a dataclass field — what the translator reported for `ConstraintChain` before
+the fix — is not within the policy, and the machine then gives different masked responses in two configurations. -/
+theorem C06_identity_channel :
+    ¬ NoEnv identityLeak
+    ∧ (lastResp (run identityLeak impl cfgA init [call 36])).map mask
+      ≠ (lastResp (run identityLeak impl cfgB init [call 36])).map mask := by decide
 
 end Octave.C06
